@@ -5,8 +5,8 @@ package p2j
 
 // unmarshalSingular, numeric kinds: the number handed to the formatter is the value the wire encodes for the
 // field's kind — zig-zag for sint32/sint64, sign-extended for int32/sfixed32/enum, zero-extended for the unsigned
-// 32-bit kinds; 64-bit signed kinds as they are. (uint64/fixed64 go through strconv.AppendUint and string/bytes/
-// message through other encoders: excluded by precondition, not under contract.)
+// 32-bit kinds; 64-bit signed kinds as they are. (uint64/fixed64 go through strconv.AppendUint, whose assumed contract is in specs/ext/strconv;
+// string/bytes/message/float are excluded by precondition.)
 //@ pure jvar(t proto.Type, v uint64) int64 = ite(t == proto.INT32 || t == proto.ENUM, int64(int32(v)), ite(t == proto.SINT32, int64(protowire.unzz32(uint32(v))), \
 //@      ite(t == proto.UINT32, int64(uint32(v)), ite(t == proto.SINT64, protowire.unzz(v), int64(v)))))
 //@ pure isjvar(t proto.Type) bool = t == proto.INT32 || t == proto.ENUM || t == proto.SINT32 || t == proto.UINT32 || t == proto.SINT64 || t == proto.INT64
@@ -15,7 +15,7 @@ package p2j
 //@   props C08 C06
 //@   timeout 40
 //@   requires ptrs: self != nil && p != nil && out != nil && fd != nil && !samerg(out, p) && !samerg(out, *out) && !samerg(p, *out) && !samerg(fd, *out) && !samerg(self, *out) && !samerg(p.Buf, *out) && !samerg(fd, p) && !samerg(fd, out)
-//@   requires kind: fd.typ != proto.MESSAGE && fd.typ != proto.STRING && fd.typ != proto.BYTE && fd.typ != proto.UINT64 && fd.typ != proto.FIX64 && \
+//@   requires kind: fd.typ != proto.MESSAGE && fd.typ != proto.STRING && fd.typ != proto.BYTE && \
 //@       fd.typ != proto.FLOAT      // written as disequalities so that the excluded branches are pruned (float32 -> float64 widening is outside the engine's arithmetic)
 //@   requires plain: !self.opts.Int642String
 //@   ensures vbad: isjvar(fd.typ) && old(binary.tagl(p)) == 0 ==> err != nil && len(*out) == old(len(*out))
@@ -33,5 +33,11 @@ package p2j
 //@   ensures btrue: fd.typ == proto.BOOL && old(binary.tagl(p)) > 0 && old(binary.tagv(p)) == 1 ==> err == nil && len(*out) == old(len(*out)) + 4 && \
 //@       (*out)[old(len(*out))] == 0x74 && (*out)[old(len(*out))+1] == 0x72 && (*out)[old(len(*out))+2] == 0x75 && (*out)[old(len(*out))+3] == 0x65
 //@   ensures bfalse: fd.typ == proto.BOOL && old(binary.tagl(p)) > 0 && old(binary.tagv(p)) == 0 ==> err == nil && len(*out) == old(len(*out)) + 5 && (*out)[old(len(*out))] == 0x66
+//@   ensures u64len: fd.typ == proto.UINT64 && old(binary.tagl(p)) > 0 ==> err == nil && len(*out) == old(len(*out)) + strconv.u64len(old(binary.tagv(p)))
+//@   ensures u64digits: fd.typ == proto.UINT64 && old(binary.tagl(p)) > 0 ==> forall k :: 0 <= k && k < strconv.u64len(old(binary.tagv(p))) ==> \
+//@       (*out)[old(len(*out)) + k] == strconv.u64dig(old(binary.tagv(p)), k)
+//@   ensures f64len: fd.typ == proto.FIX64 && old(p.Read) + 8 <= len(p.Buf) ==> err == nil && len(*out) == old(len(*out)) + strconv.u64len(protowire.le64(p.Buf, old(p.Read)))
+//@   ensures f64digits: fd.typ == proto.FIX64 && old(p.Read) + 8 <= len(p.Buf) ==> forall k :: 0 <= k && k < strconv.u64len(protowire.le64(p.Buf, old(p.Read))) ==> \
+//@       (*out)[old(len(*out)) + k] == strconv.u64dig(protowire.le64(p.Buf, old(p.Read)), k)
 //@   ensures prefix: forall i :: 0 <= i && i < old(len(*out)) ==> (*out)[i] == old((*out)[i])
 //@   modifies *out, (*out)[len(*out):cap(*out)], p.Read
